@@ -25,8 +25,10 @@ RULE = (
     "sort/cvar filters; mean/stddev estimators; masks; SLSQP or differential evolution with an explicit seed option; "
     "small budgets) and over histories: run A, then 1-3 interfering actions (reseeding NumPy's global generator, other "
     "runs that differ in seed / sampler / everything, reuse of the plug-in manager, of the context, of the plan and step "
-    "object, passing the same validated EnOptConfig object), then A again; the evaluator itself reseeds and draws from "
-    "the global generator on every call; for a fraction of the cases A is also run in a fresh interpreter. Oracle: "
+    "object, passing the same validated EnOptConfig object), then A again - optionally with an unrelated optimization "
+    "executed from inside one of A's own callbacks; the evaluator itself reseeds and draws from "
+    "the global generator on every call; for a fraction of the cases A is also run in a fresh interpreter with a different "
+    "PYTHONHASHSEED. Oracle: "
     "bit-identical hashes of the complete trace (every evaluator request incl. labels and activity flags, every array of "
     "every delivered result, exit code); a run that differs only in the seed must produce different perturbations. "
     "Non-trivial: a stochastic sampler, >=1 gradient evaluation and >=1 interfering action between the two runs of A."
@@ -109,7 +111,7 @@ class Session:
         self.steps: dict[str, Any] = {}
 
 
-def run_once(spec: dict[str, Any], session: Session, reuse: str) -> dict[str, Any]:
+def run_once(spec: dict[str, Any], session: Session, reuse: str, inside: dict[str, Any] | None = None) -> dict[str, Any]:
     """reuse: fresh | manager | context | step (step = the same plan, step object and validated EnOptConfig object as the
     previous run of this very configuration, if there was one).
     """
@@ -141,6 +143,15 @@ def run_once(spec: dict[str, Any], session: Session, reuse: str) -> dict[str, An
     session.events.clear()
     # always hand over the same validated configuration object for the same configuration
     config = session.config_obj.setdefault(key, EnOptConfig.model_validate(build_config(spec)))
+    pending = {"spec": inside}
+    if inside is not None:
+        # another, unrelated optimization runs while this one is alive (started from its first FINISHED_EVALUATION)
+        def interloper(event: Any) -> None:  # noqa: ANN401, ARG001
+            other, pending["spec"] = pending["spec"], None
+            if other is not None:
+                run_once(other, Session(), "fresh")
+
+        session.ctx.add_observer(EventType.FINISHED_EVALUATION, interloper)
     code = session.plan.run_step(session.step, config=config)
     chunks: list[bytes] = [repr(int(code)).encode()]
     first_pert: bytes | None = None
@@ -163,6 +174,7 @@ def fresh_process_hash(spec: dict[str, Any]) -> str:
     code = ("import json,sys\nimport numpy as np\nfrom checks.c16_reproducible import run_once, Session\n"
             "spec=json.loads(sys.stdin.read())\nprint('HASH', run_once(spec, Session(), 'fresh')['hash'])\n")
     env = dict(os.environ)
+    env["PYTHONHASHSEED"] = str(1 + (len(json.dumps(spec)) + spec["seed"]) % 7)  # this process runs with PYTHONHASHSEED=0
     proc = subprocess.run([sys.executable, "-c", code], input=json.dumps(spec), capture_output=True, text=True, env=env,  # noqa: S603
                           timeout=300, check=False)
     for line in proc.stdout.splitlines():
@@ -190,7 +202,7 @@ def run_case(case: dict[str, Any]) -> dict[str, Any]:
                     and any(m in STOCHASTIC for m, _ in spec["samplers"]):
                 check(res["first_pert"] != first["first_pert"], "seed-ignored",
                       f"a run that differs only in the seed ({spec['seed']} -> {action['changes']['seed']}) used identical perturbations", case)
-    second = run_once(spec, session, case["final_reuse"])
+    second = run_once(spec, session, case["final_reuse"], inside=case.get("inside"))
     check(second["code"] == first["code"], "exit-code-differs", f"exit codes {first['code']} vs {second['code']}", case)
     check(second["calls"] == first["calls"], "trace-differs", f"{first['calls']} vs {second['calls']} evaluator calls", case)
     check(second["hash"] == first["hash"], "trace-differs",
@@ -223,7 +235,7 @@ def hypothesis_shard(item: dict[str, Any]) -> Collector:
             mask = [True] + [draw(st.booleans()) for _ in range(n - 1)]
         return {"n": n, "K": 1, "P": draw(st.integers(1, 4)), "weights": [draw(st.sampled_from([1.0, 2.0])) for _ in range(r_n)],
                 "x0": [draw(st.sampled_from([0.0, 0.5, -0.5])) for _ in range(n)], "seed": draw(st.integers(0, 50)),
-                "samplers": [[draw(st.sampled_from(STOCHASTIC)), draw(st.booleans())] for _ in range(s_n)],
+                "samplers": [[draw(st.sampled_from(STOCHASTIC + ["sobol", "halton", "lhs"])), draw(st.booleans())] for _ in range(s_n)],
                 "assign": [draw(st.integers(0, s_n - 1)) for _ in range(n)] if s_n > 1 else None, "mask": mask, "filter": flt,
                 "estimator": estimator, "method": draw(st.sampled_from(["slsqp", "slsqp", "de"])), "de_seed": draw(st.integers(0, 20)),
                 "budget": draw(st.integers(2, 4)), "speculative": draw(st.booleans()),
@@ -248,15 +260,22 @@ def hypothesis_shard(item: dict[str, Any]) -> Collector:
                 other = draw(specs())
                 changes = {k: other[k] for k in other}
             actions.append({"kind": "run", "changes": changes, "reuse": draw(st.sampled_from(["fresh", "manager", "context", "step"]))})
+        inside = None
+        if draw(st.integers(0, 2)) == 0:  # an unrelated run with the same kind of samplers, executed from a callback of the second run of A
+            inside = dict(spec)
+            inside.update({"seed": spec["seed"] + 11, "x0": [v + 0.25 for v in spec["x0"]]})
+        qmc = {m for m, _ in spec["samplers"] if m in ("sobol", "halton", "lhs")}
         return {"A": spec, "actions": actions, "final_reuse": draw(st.sampled_from(["fresh", "manager", "context", "step"])),
-                "fresh_process": draw(st.integers(0, item["fresh_every"])) == 0}
+                # several different QMC engines share one generator: always compare with another interpreter (hash seed)
+                "fresh_process": len(qmc) > 1 or draw(st.integers(0, item["fresh_every"])) == 0, "inside": inside}
 
     def body(case: dict[str, Any]) -> None:
         info = run_case(case)
         methods = {m for m, _ in case["A"]["samplers"]}
         col.case(case, nontrivial=info["grads"] >= 1 and info["interfering"] >= 1, classes=(
             f"optimizer={case['A']['method']}", *(f"sampler={m}" for m in sorted(methods)), f"final-reuse={case['final_reuse']}",
-            "fresh-process-reference" if case["fresh_process"] else "in-process-only", "gradients" if info["grads"] else "no-gradients",
+            "fresh-process-reference" if case["fresh_process"] else "in-process-only",
+            "interloper-inside-run" if case.get("inside") else "no-interloper", "gradients" if info["grads"] else "no-gradients",
             *(f"action={a['kind']}" + (":" + a["reuse"] if a["kind"] == "run" else "") for a in case["actions"])))
 
     run_hypothesis(col, cases(), body, seed=item["seed"], max_examples=item["examples"])
